@@ -52,7 +52,7 @@ pub open spec fn table_decommit_ok(c: &Commitment, queries: Seq<nat>, values: Se
             == Some(c.vector_commitment.commitment_hash@)
 }
 
-//@repo crates/commitment/src/table/decommit.rs fn table_decommit props=C05 rules=H_into_iter_map_collect
+//@repo crates/commitment/src/table/decommit.rs fn table_decommit props=C01,C02,C05 rules=H_into_iter_map_collect
 pub fn table_decommit(
     commitment: Commitment,
     queries: &[Felt],
@@ -62,7 +62,7 @@ pub fn table_decommit(
     requires
         queries@.len() <= 0xffff_ffff, // [C18:table-decommit-query-count-fits-u32]
     ensures
-        r.is_ok() <==> table_decommit_ok(&commitment, fv(queries@), fv(decommitment.values@), fv(witness.vector.authentications@)), // [C05:table-decommit-ok-iff-count-matches-and-rows-decommit]
+        r.is_ok() <==> table_decommit_ok(&commitment, fv(queries@), fv(decommitment.values@), fv(witness.vector.authentications@)), // [C01,C02,C05:table-decommit-ok-iff-count-matches-and-rows-decommit]
 {
     // An extra layer is added to the height since the table is considered as a layer, which is not
     // included in vector_commitment.config.
@@ -100,7 +100,7 @@ pub fn table_decommit(
 }
 //@end
 
-//@repo crates/commitment/src/table/decommit.rs fn generate_vector_queries props=C05 rules=H_extend_flat_map_be_bytes
+//@repo crates/commitment/src/table/decommit.rs fn generate_vector_queries props=C01,C02,C05 rules=H_extend_flat_map_be_bytes
 fn generate_vector_queries(
     queries: &[Felt],
     values: &[Felt],
@@ -108,9 +108,9 @@ fn generate_vector_queries(
     is_verifier_friendly: bool,
 ) -> (r: Vec<Query>)
     requires
-        n_columns as nat * queries@.len() == values@.len(), // [C05:row-count-checked-before-hashing]
+        n_columns as nat * queries@.len() == values@.len(), // [C01,C02,C05:row-count-checked-before-hashing]
     ensures
-        query_pairs(r@) == row_queries(fv(queries@), fv(values@), n_columns as nat, is_verifier_friendly), // [C05:one-leaf-per-queried-row-hash-by-friendly-rule]
+        query_pairs(r@) == row_queries(fv(queries@), fv(values@), n_columns as nat, is_verifier_friendly), // [C01,C02,C05:one-leaf-per-queried-row-hash-by-friendly-rule]
 {
     let mut vector_queries/*+*/: Vec<Query>/*-*/ = Vec::new();
     for i in 0..queries.len()
